@@ -241,6 +241,7 @@ func (c Collection) characterizeAndFlatten(nonStaticTypes map[typeCode]bool) ([]
 	if mutated {
 		c.reorderNonFinal()
 	}
+	verifDump("S1", true, c.contents, 0, nil, nil, 0, nil)
 
 	for ii, fm := range c.contents {
 		cc := charContext{
